@@ -126,3 +126,31 @@ def summarize(results):
     for r in results:
         s[r["status"]] = s.get(r["status"], 0) + 1
     return s
+
+
+def dump_mutant(prop, mid, keys, config="default"):
+    """print the MIR of functions of a mutated scratch copy (debugging aid)"""
+    from .facts import dump_fn
+    ms = [m for m in load_catalogue(prop) if m["id"] == mid]
+    m = ms[0]
+    tmp = tempfile.mkdtemp(prefix="cwmt-mut-")
+    try:
+        shutil.copytree(os.path.join(extract.REPO, "src"), os.path.join(tmp, "src"))
+        for f in ("Cargo.toml", "Cargo.lock"):
+            shutil.copy(os.path.join(extract.REPO, f), os.path.join(tmp, f))
+        err = apply_edits(tmp, m)
+        if err:
+            print(err)
+            return
+        out = os.path.join(tmp, "facts.json")
+        ok, log = extract.replay(config, tmp, out)
+        if not ok:
+            print(log[-3000:])
+            return
+        F = Facts(out)
+        for k in keys:
+            for key, f in F.fns.items():
+                if key == k or (k.endswith("*") and key.startswith(k[:-1])):
+                    print(dump_fn(f))
+    finally:
+        shutil.rmtree(tmp, ignore_errors=True)
